@@ -335,8 +335,28 @@ func (e *Engine) checkNoSecret(where string, text Str) {
 			}
 			contains = Or(contains, eq)
 		}
-		// leak iff there is no secret value for which the text does not contain it
-		e.assert(Not(contains), fmt.Sprintf("secret %s appears in %s", s.name, where), "", nil)
+		// The secret is an unconstrained symbolic string. If for EVERY value of the
+		// secret the text contains it, the secret flows into the text: leak. If some
+		// value is not contained, an occurrence is a coincidence of that value.
+		if contains.IsFalse() {
+			continue
+		}
+		e.res.Stats.Asserts++
+		r := Unsat
+		if !contains.IsTrue() {
+			r, _ = e.check(Not(contains))
+		}
+		switch r {
+		case Sat:
+			e.res.Stats.AssertsUnsat++ // obligation discharged: not a flow
+		case Unsat:
+			e.res.Stats.AssertsSat++
+			msg := fmt.Sprintf("secret %s appears in %s", s.name, where)
+			e.res.Violations = append(e.res.Violations, Violation{Harness: e.harness, Kind: "assert", Msg: msg, Model: e.modelMap(e.model),
+				Decisions: append([]Decision(nil), e.taken...), Observed: map[string]string{"text": text.String()}})
+		default:
+			e.markInconclusive("solver unknown on secret-flow query")
+		}
 	}
 }
 
